@@ -157,6 +157,14 @@ def run_history(procs):
     bad = []
     try:
         for jobs in procs:
+            if isinstance(jobs, dict):
+                # between two processes: a template file is (re)written
+                os.makedirs(os.path.dirname(jobs["write"]), exist_ok=True)
+                with open(jobs["write"], "w", encoding="utf-8") as f:
+                    f.write(jobs["body"])
+                if "mtime" in jobs:
+                    os.utime(jobs["write"], (jobs["mtime"], jobs["mtime"]))
+                continue
             rc, res, raw = child(cache, {"mode": "plain", "jobs": jobs})
             if res is None:
                 raise HarnessError("child failed rc=%s %r" % (rc, raw))
@@ -364,8 +372,9 @@ def _concat_job(case):
         body = "<p>${a}|${bc}</p>"
         a = {"cls": "PageTemplate", "body": body, "kwargs": {},
              "options": {"extra_builtins": {"a": "ONE", "bc": "1"}}}
+        # (the second dictionary lists the names in the other order)
         b = {"cls": "PageTemplate", "body": body, "kwargs": {},
-             "options": {"extra_builtins": {"a": "TWO", "bc": "2"}}}
+             "options": {"extra_builtins": {"bc": "2", "a": "TWO"}}}
         procs = [[a], [b]] if case["two_procs"] else [[a, b, a]]
         if case["order"]:
             procs = [list(reversed(p)) for p in reversed(procs)]
@@ -381,6 +390,45 @@ def _concat_job(case):
         procs = [[a], [b]] if case["two_procs"] else [[a, b, a]]
         if case["order"]:
             procs = [list(reversed(p)) for p in reversed(procs)]
+    elif kind in ("file_edit", "file_names", "file_dirs"):
+        # file templates: the entry is named after the file; a short name
+        # and one of 140 characters (names longer than an entry name may be)
+        tmp = tempfile.mkdtemp(prefix="c15f-")
+        stem = "page" if case["order"] == 0 else "p" * 140
+        v1 = "<p>first ${1 + 1}</p>"
+        v2 = "<p>second ${2 + 2}</p>"
+
+        def job(path):
+            return {"cls": "PageTemplateFile", "filename": path,
+                    "options": {}, "kwargs": {}}
+        if kind == "file_edit":
+            # the file is edited between two processes (or between two
+            # templates of one process)
+            path = os.path.join(tmp, "d", stem + ".pt")
+            procs = [{"write": path, "body": v1, "mtime": 1000000000},
+                     [job(path)],
+                     {"write": path, "body": v2, "mtime": 1000000100},
+                     [job(path)]]
+        elif kind == "file_names":
+            # two files whose names start alike
+            pa = os.path.join(tmp, "d", stem + "_a.pt")
+            pb = os.path.join(tmp, "d", stem + "_b.pt")
+            procs = [{"write": pa, "body": v1}, {"write": pb, "body": v2}] + (
+                [[job(pa)], [job(pb)]] if case["two_procs"]
+                else [[job(pa), job(pb), job(pa)]])
+        else:
+            # the same name in two directories
+            pa = os.path.join(tmp, "one", stem + ".pt")
+            pb = os.path.join(tmp, "two", stem + ".pt")
+            procs = [{"write": pa, "body": v1}, {"write": pb, "body": v2}] + (
+                [[job(pa)], [job(pb)]] if case["two_procs"]
+                else [[job(pb), job(pa), job(pb)]])
+        try:
+            return (case, run_history(procs), None)
+        except HarnessError as e:
+            return (case, None, str(e))
+        finally:
+            shutil.rmtree(tmp, ignore_errors=True)
     elif kind == "class_suffix":
         a = dict(kw, cls="SubA", body=x)
         b = dict(kw, cls="A", body=x + "Sub")
@@ -456,10 +504,12 @@ class Bodies(Stage):
                                               "order": order,
                                               "two_procs": two})
         for kind in ("class_suffix", "builtin_names", "builtin_values",
-                     "content_type", "class_between", "nothing_between",
+                     "content_type", "file_edit", "file_names", "file_dirs",
+                     "class_between", "nothing_between",
                      "text_class_between"):
             pairwise = kind in ("class_suffix", "builtin_names",
-                                "builtin_values", "content_type")
+                                "builtin_values", "content_type",
+                                "file_edit", "file_names", "file_dirs")
             for order in range(2 if pairwise else 5):
                 for two in ((False, True) if pairwise else (False,)):
                     cases.append({"base": "concat", "kind": kind,
